@@ -1,6 +1,9 @@
 #!/bin/sh
-# Builds the executor(s) once, offline, against /repo's working tree.
+# Builds the executor(s) once, offline, against /repo's working tree, and self-checks the reference models
+# (spec vectors: zig-zag table, CRC-64-AVRO of the documented examples, PCF examples, snappy framing).
 cd "$(dirname "$0")/harness" || exit 2
 [ -f Cargo.lock ] || cp /repo/Cargo.lock Cargo.lock
 export CARGO_NET_OFFLINE=true
-cargo build --offline --profile checked 2>&1 | tail -3
+cargo build --offline --profile checked 2>&1 | tail -3 || exit 2
+[ -x ../target/checked/avmon-exec ] && [ -x ../target/checked/avmon-corpus ] || { echo "setup: harness binaries missing"; exit 2; }
+cd .. && python3 tools/selfcheck.py
